@@ -33,6 +33,7 @@ import (
 
 type listener struct {
 	openOnce, closeOnce sync.Once
+	mu                  sync.Mutex // guards fd between close and dup
 	fd                  int
 	addr                net.Addr
 	address, network    string
@@ -47,6 +48,12 @@ func (ln *listener) packPollAttachment(handler netpoll.PollEventHandler) *netpol
 }
 
 func (ln *listener) dup() (int, error) {
+	// Engine.Dup and Engine.DupListener may be called while the engine is shutting down.
+	ln.mu.Lock()
+	defer ln.mu.Unlock()
+	if ln.fd < 0 {
+		return -1, errorx.ErrEngineInShutdown
+	}
 	return socket.Dup(ln.fd)
 }
 
@@ -75,10 +82,12 @@ func (ln *listener) open() (err error) {
 
 func (ln *listener) close() {
 	ln.closeOnce.Do(func() {
+		ln.mu.Lock()
 		if ln.fd > 0 {
 			logging.Error(os.NewSyscallError("close", unix.Close(ln.fd)))
 		}
 		ln.fd = -1
+		ln.mu.Unlock()
 		if ln.network == "unix" {
 			logging.Error(os.RemoveAll(ln.address))
 		}
